@@ -1,6 +1,7 @@
 // RouterSession part 2: connection pins, junction ends, checkpoints (C11) and
 // the nudging oracle (C10).
 #include "router_session.h"
+#include "sigs.h"
 #include "router_gen.h"
 #include "mix_gen.h"
 
@@ -42,7 +43,7 @@ void RouterSession::onReshape(Sh &, const Poly &, const Json &) {}
 bool RouterSession::extraOp(const Json &op, const std::string &o, std::string &ex, bool &edited) {
     auto guardedLocal = [&](const std::function<void()> &fn) -> std::string {
         try { LibScope ls; fn(); }
-        catch (vpsc::CriticalFailure &f) { HarnessScope hs; return fmt("assert@%s:%d", strstr(f.file, "lib") ? strstr(f.file, "lib") : f.file, f.line); }
+        catch (vpsc::CriticalFailure &f) { HarnessScope hs; return assertSig(f); }
         catch (std::exception &e) { return "std::exception"; }
         catch (...) { return "unknown-exception"; }
         return "";
@@ -91,6 +92,22 @@ bool RouterSession::extraOp(const Json &op, const std::string &o, std::string &e
         it->second.alive = false;
         ex = guardedLocal([&] { router->deleteCluster(it->second.ref); });
         it->second.ref = nullptr; edited = true; probe("router.deleteCluster");
+        return true;
+    }
+    if (o == "setCheckpoints") {
+        // change or clear the checkpoints of a live connector (ConnRef::setRoutingCheckpoints a second time)
+        int k = (int)op["id"].i();
+        auto it = conns.find(k);
+        if (it == conns.end() || !it->second.alive || it->second.hyperedge || !it->second.ref) return false;
+        if (!useTransactions && armed("C11")) return false;      // runs no implicit transaction in immediate mode: nothing to judge (see addConn)
+        Cn &c = it->second;
+        c.checkpoints.clear();
+        for (auto &q : op["checkpoints"].a) c.checkpoints.push_back(Pt{q[0].num(), q[1].num()});
+        ex = guardedLocal([&] { std::vector<Checkpoint> cps; for (auto &q : c.checkpoints) cps.push_back(Checkpoint(Point(q.x, q.y))); c.ref->setRoutingCheckpoints(cps); });
+        // setRoutingCheckpoints() does not invalidate an existing route ("when routing, the connector will attempt to visit..."):
+        // the new list is judged from the next time the connector is actually rerouted (it gets its callback)
+        if (c.ref->route().size() >= 2) c.cpStale = true;
+        edited = true; probe("router.setCheckpoints-on-live-connector");
         return true;
     }
     if (o == "fixRoute" || o == "clearFixedRoute" || o == "hateCrossings") {
@@ -247,7 +264,9 @@ void RouterSession::checkPins(const char *when) {
             }
         }
         // checkpoints in order on route()
-        if (!c.checkpoints.empty()) {
+        if (c.cpStale && callbacks[kv.first] != cbSeen[kv.first]) c.cpStale = false;
+        if (!c.checkpoints.empty() && c.cpStale) probe("router.checkpoints-changed-route-not-yet-recomputed");
+        if (!c.checkpoints.empty() && !c.cpStale) {
             std::vector<Pt> r = routePts(c.ref->route());
             size_t pos = 0; bool ok = true; size_t missing = 0;
             for (size_t ci = 0; ci < c.checkpoints.size() && ok; ci++) {
@@ -483,6 +502,47 @@ static Json genC11(const std::string &prop, uint64_t seed, const std::string &ti
     };
     if (tier == "thorough") { g.maxShapes = 8; g.maxConns = 8; g.maxSteps = 9; }
     if (r.chance(0.3)) addJunctionOps(g, 0.5);          // "an end attached to a junction ends at the junction's position"
+    if (r.chance(0.5)) {                                // a pin-attached end is re-attached to another shape's (shared) pin, the shape it leaves is
+        auto prev = g.editHook;                         // moved in the same transaction or not at all
+        g.editHook = [prev](SceneGen &sg, Json &ops) {
+            if (prev && sg.r.chance(0.5)) { prev(sg, ops); return; }
+            std::vector<std::pair<int, int>> cand;
+            for (auto &kv : sg.conns) if (kv.second.alive && !kv.second.hyper) for (int k = 0; k < 2; k++) if (kv.second.shapeEnd[k] >= 0) cand.push_back({kv.first, k});
+            std::vector<int> sids; for (auto &kv : sg.shapes) if (kv.second.alive && !kv.second.pins.empty()) sids.push_back(kv.first);
+            if (cand.empty() || sids.size() < 2) { if (prev) prev(sg, ops); return; }
+            auto ck = sg.r.pick(cand); SceneGen::GC &c = sg.conns[ck.first]; int k = ck.second;
+            int old = c.shapeEnd[k], other = c.shapeEnd[1 - k];
+            std::vector<int> tgt; for (int s2 : sids) if (s2 != old && s2 != other) tgt.push_back(s2);
+            if (tgt.empty()) { if (prev) prev(sg, ops); return; }
+            int to = sg.r.pick(tgt);
+            sg.shapes[old].attached--; sg.shapes[to].attached++;
+            c.shapeEnd[k] = to; c.clsEnd[k] = 2;
+            Json e = Json::obj(); e.set("shape", to); e.set("cls", 2);
+            Json o = Json::obj(); o.set("op", "moveEnd"); o.set("id", ck.first); o.set("which", k); o.set("end", e);
+            bool before = sg.r.chance(0.5);
+            Json mv = Json::obj(); mv.set("op", "moveShape"); mv.set("id", old); mv.set("dx", 0.0); mv.set("dy", 0.0);      // refreshes the ends attached to the shape, moves nothing
+            int mode = (int)sg.r.below(3);
+            if (mode == 0 && before) ops.push(mv);
+            ops.push(o);
+            if (mode == 0 && !before) ops.push(mv);
+            if (mode == 1) sg.moveShape(ops);
+        };
+        g.wMove = std::min(g.wMove, 48);
+    }
+    if (g.checkpoints && r.chance(0.5)) {               // checkpoints changed or cleared on a live connector
+        auto prev = g.editHook;
+        g.editHook = [prev](SceneGen &sg, Json &ops) {
+            if (prev && sg.r.chance(0.5)) { prev(sg, ops); return; }
+            std::vector<int> cids; for (auto &kv : sg.conns) if (kv.second.alive && !kv.second.hyper) cids.push_back(kv.first);
+            if (cids.empty()) { if (prev) prev(sg, ops); return; }
+            int id = sg.r.pick(cids);
+            Json o = Json::obj(); o.set("op", "setCheckpoints"); o.set("id", id);
+            Json cps = Json::arr(); int nc = (int)sg.r.below(3); sg.conns[id].cps.clear();
+            for (int c = 0; c < nc; c++) { Pt q = sg.freePoint(); sg.conns[id].cps.push_back(q); cps.push(ptJ(q)); }
+            o.set("checkpoints", cps); ops.push(o);
+        };
+        g.wMove = std::min(g.wMove, 48);
+    }
     if (r.chance(0.4)) {                                // the client rotates / flips shapes: the pins (and the attached routes) follow
         auto prev = g.editHook;
         g.editHook = [prev](SceneGen &sg, Json &ops) {
@@ -643,6 +703,12 @@ static void extendForMix(Rng &r, RouterGenCfg &g, bool forC20) {
                 Json o = Json::obj(); o.set("op", "deleteCluster"); o.set("id", id); ops.push(o);
             } else if (!cids.empty()) {
                 int id = rr.pick(cids);
+                if (rr.chance(0.35)) {
+                    Json o = Json::obj(); o.set("op", "setCheckpoints"); o.set("id", id);
+                    Json cps = Json::arr(); int nc = (int)rr.below(3); for (int c = 0; c < nc; c++) cps.push(ptJ(sg.freePoint())); o.set("checkpoints", cps);
+                    ops.push(o);
+                    return;
+                }
                 Json o = Json::obj(); o.set("op", what < 8 ? "fixRoute" : what < 9 ? "clearFixedRoute" : "hateCrossings"); o.set("id", id);
                 if (what == 9) o.set("v", rr.chance(0.5));
                 ops.push(o);
@@ -772,6 +838,7 @@ static void frameTwinCheck(World &w) {
                 bool costSame = std::fabs(ca - cb) <= 1e-6 * std::max(1.0, std::fabs(ca));
                 Violation v; v.prop = "C20"; v.clause = "frame"; v.session = (int)bi; v.op = -1;
                 std::string edgeCls = B->spec["cfg"].str("style", "").find("end-points-on-shape-sides") != std::string::npos ? ":end-points-on-shape-sides" : "";
+                if (B->spec["cfg"].str("style", "").find("direction-restricted-ends") != std::string::npos) edgeCls += ":direction-restricted-end-points";
                 if (!costSame) {
                     v.sig = (translate ? "translation-changes-route-cost" : "symmetry-changes-route-cost") + edgeCls;
                     v.detail = fmt("transaction %zu conn %d: cost %.9f vs %.9f (%s %s, frame %s)", t, kv.first, ca, cb, A->ortho ? "ortho" : "poly", translate ? "translate" : "sym", fr.dump().c_str());
